@@ -10,5 +10,5 @@ s=s.replace(old,new,1); open(p,'w').write(s)
 PY
 [ $? -eq 0 ] || exit 9
 (cd /repo && go build ./... ) || { git -C /repo checkout -- .; echo BUILD-FAIL; exit 9; }
-cd /verif && VERIF_RUNS=${RUNS:-30000} ./check $prop quick 2>&1 | grep -E "VIOLATION|OK prop|MACHINERY|  C[0-9]+/" | head -8
+cd /verif && VERIF_NO_EVIDENCE=1 VERIF_RUNS=${RUNS:-30000} ./check $prop quick 2>&1 | grep -E "VIOLATION|OK prop|MACHINERY|  C[0-9]+/" | head -8
 git -C /repo checkout -- .
